@@ -186,6 +186,10 @@ pub struct CursorCase {
     pub fresh_each: bool,
     #[serde(default)]
     pub v1: bool,
+    /// the root index block is moved behind a hole of this many virtual zero bytes (files whose
+    /// index lives beyond 4 GiB without holding 4 GiB in memory)
+    #[serde(default)]
+    pub sparse_hole: Option<u64>,
 }
 
 #[derive(Clone, Serialize, Deserialize, Debug, PartialEq)]
